@@ -3,7 +3,7 @@
    ApplyIf, the batch builder's PropIf) are read from the current source (Gen.Ast) and run by the
    interpreter of Meta/Cond.v on the whole input space (condition x nil-ness of the function). *)
 From Coq Require Import String List Bool.
-From QRB Require Import Meta.GoAst Meta.Cond Gen.Ast Obl.Cond Model.Values Model.JsonMap.
+From QRB Require Import Meta.GoAst Meta.Cond Gen.Ast Obl.Cond Model.Values Model.JsonMap Model.Api Model.ApiFacts.
 Import ListNotations.
 
 (* what the check establishes for one combinator *)
@@ -66,7 +66,26 @@ Section Nil.
   Proof. intros. split; reflexivity. Qed.
 End Nil.
 
+(* the same law in the functional model of the builder methods (Model/Api.v, compared call by call with the
+   implementation; [r] is what the function returns on the receiver, ENil a nil function): a false condition or a nil
+   function returns the receiver, a true condition what the function returns *)
+Theorem C19_api_applyif_select :
+  forall (V : Type) w c p (r : exp V),
+    call V "ApplyIf" [ABool false; AExp r] (Some (ESelect w c p)) = Some (ESelect w c p) /\
+    call V "ApplyIf" [ABool true; AExp ENil] (Some (ESelect w c p)) = Some (ESelect w c p) /\
+    (is_nil r = false -> call V "ApplyIf" [ABool true; AExp r] (Some (ESelect w c p)) = Some r).
+Proof. intros V w c p r. repeat split. intro H. unfold call, opt_bind. cbn. now rewrite H. Qed.
+
+Theorem C19_api_applyif_update :
+  forall (V : Type) b (r : exp V),
+    call V "ApplyIf" [ABool false; AExp r] (Some (EUpdate b)) = Some (EUpdate b) /\
+    call V "ApplyIf" [ABool true; AExp ENil] (Some (EUpdate b)) = Some (EUpdate b) /\
+    (is_nil r = false -> call V "ApplyIf" [ABool true; AExp r] (Some (EUpdate b)) = Some r).
+Proof. intros V b r. repeat split. intro H. unfold call, opt_bind. cbn. now rewrite H. Qed.
+
 Print Assumptions C19_law_of_check.
+Print Assumptions C19_api_applyif_select.
+Print Assumptions C19_api_applyif_update.
 Print Assumptions C19_current_tree.
 Print Assumptions C19_and_or_current_tree.
 Print Assumptions C19_nil_skipped.
